@@ -767,6 +767,10 @@ class DestHandler:
             self._handle_metadata_packet(packet_holder.to_metadata_pdu())
             if self._params.acked_params.deferred_lost_segment_detection_active:
                 self._reset_nak_activity_parameters()
+                if self.states.step == TransactionStep.RECEIVING_FILE_DATA:
+                    # The EOF PDU was received already: the missing file data is re-requested by
+                    # the deferred lost segment procedure, which keeps running.
+                    self.states.step = TransactionStep.WAITING_FOR_MISSING_DATA
         elif packet_holder.pdu_directive_type == DirectiveType.EOF_PDU:  # type: ignore
             self._handle_eof_without_previous_metadata(packet_holder.to_eof_pdu())
             if self._params.acked_params.deferred_lost_segment_detection_active:
